@@ -245,7 +245,7 @@ def run(tier, seed):
     ctx = core.Ctx(PID, tier, seed, LEVEL)
     rng = ctx.rng
     maxlen = 4 if tier == "quick" else 5
-    ntrees = 4000 if tier == "quick" else core.share(80000)
+    ntrees = 4000 if tier == "quick" else core.share(320000)
     ctx.rule = ("(a) %d random datum trees (depth <= 5; identifiers incl. peculiar and |quoted| ones, booleans, characters incl. delimiters, strings with every escape, integers at the "
                 "i32 edges, ratios, decimals with exponents, dotted tails, vectors, nested quote abbreviations) each rendered 3 ways with random inter-token layout; (b) every string "
                 "of length <= %d over the 16-character alphabet %r tokenized by both tokenizers (exhaustive). distinct_nontrivial = distinct reference token-kind sequences "
